@@ -681,10 +681,14 @@ func (s *Service) serve(nc Conn) error {
 	s.nc = nc
 	s.ncmu.Unlock()
 	s.inCh = inCh
+	// The work queue is set up under the lock: a callback submitted while the
+	// previous run was being stopped may only now get to look at it.
+	s.mu.Lock()
 	s.workcond = sync.Cond{L: &s.mu}
 	s.workbuf = make([]*work, s.inChannelSize)
 	s.workqueue = s.workbuf[:0]
 	s.rwork = make(map[string]*work, s.inChannelSize)
+	s.mu.Unlock()
 	s.queryTQ = timerqueue.New(s.queryEventExpire, s.queryDuration)
 
 	// Start workers. Each run has a WaitGroup of its own: the Serve call of
